@@ -2297,17 +2297,29 @@ impl Drop for DB {
         };
 
         log::info!("Terminating the compaction worker background thread.");
-        if let Some(compaction_worker_join_handle) = Arc::get_mut(&mut self.compaction_worker)
-            .unwrap()
-            .stop_worker_thread()
-        {
-            if let Err(thread_panic_val) = compaction_worker_join_handle.join() {
-                log::error!(
-                    "The compaction worker thread panicked while exiting. Unwinding the \
-                    stack with the panicked value."
-                );
+        match Arc::get_mut(&mut self.compaction_worker) {
+            Some(compaction_worker) => {
+                if let Some(compaction_worker_join_handle) = compaction_worker.stop_worker_thread()
+                {
+                    if let Err(thread_panic_val) = compaction_worker_join_handle.join() {
+                        log::error!(
+                            "The compaction worker thread panicked while exiting. Unwinding the \
+                            stack with the panicked value."
+                        );
 
-                panic::resume_unwind(thread_panic_val);
+                        panic::resume_unwind(thread_panic_val);
+                    }
+                }
+            }
+            None => {
+                // An iterator that outlives this handle still holds a reference to the worker so
+                // it cannot be joined here. Ask the thread to terminate; it is released when the
+                // last iterator is dropped.
+                log::warn!(
+                    "The database is being closed while iterators are still alive. The compaction \
+                    worker thread is asked to terminate but is not joined."
+                );
+                self.compaction_worker.schedule_task(TaskKind::Terminate);
             }
         }
     }
